@@ -305,6 +305,7 @@ class _Run:
         self.trystack: list = []
         self.cvdepth = 0
         self.continue_states: list = []
+        self._cur_state = None
         self.break_guards: list = []
         self.declared_global: set = set()
 
@@ -581,7 +582,7 @@ class _Run:
     def st_For(self, s, st):
         it = self.ev(s.iter, st)
         items = _constant_items(it)
-        if items is not None and 1 <= len(items) <= 6 and not s.orelse and not any(
+        if items is not None and 1 <= len(items) <= 12 and not s.orelse and not any(
                 isinstance(n, (ast.Break, ast.Continue)) for b in s.body for n in ast.walk(b)) and \
                 any(tag(x) in ('tuple', 'list') for x in items):
             # a short table of constant records: one pass of the body per record (table-driven code reads like the
@@ -729,27 +730,43 @@ class _Run:
         elem, idx = ('lv', lid, 'elem'), ('lv', lid, 'idx')
 
         def as_map(t):
-            """(base, f, conds_f) with t == [f(b) for b in base if conds(b)]"""
+            """(base, f, conds_f) with t == [f(b, i) for i, b in enumerate(base) if conds(b)]; f and conds_f take the
+            element and the position"""
             t = T.peel(t) if tag(t) != 'lc' else t
             if tag(t) == 'lc' and t[1] in ('list', 'gen') and len(t[3]) == 1:
                 gen_it, conds = t[3][0]
-                cvs = [x for x in T.walk(t[2]) if tag(x) == 'cv'] + [x for c in conds for x in T.walk(c) if tag(x) == 'cv']
+                # the comprehension's own variables: those used outside any embedded comprehension (a cell value read
+                # back from a table may embed a *sibling* comprehension numbered with the same depth)
+                cvs = _cvs_outside_lc(t[2]) + [x for c in conds for x in _cvs_outside_lc(c)]
                 own = [x for x in cvs if x[2] == '0' or x[2].startswith('0.')]
-                if any(x[2] != '0' for x in own):
-                    return None                     # tuple / enumerate targets inside the comprehension
                 d = min((x[1] for x in own), default=None)
-                inner = as_map(gen_it)
+                own = [x for x in own if x[1] == d]
+                enum = tag(gen_it) == 'call' and gen_it[1] == ('g', 'builtins.enumerate') and gen_it[2] and not gen_it[3]
+                if enum:
+                    if any(x[2] not in ('0.idx', '0.elem') for x in own) or conds:
+                        return None
+                    inner = as_map(gen_it[2][0])
+                else:
+                    if any(x[2] != '0' for x in own):
+                        return None             # tuple targets inside the comprehension
+                    inner = as_map(gen_it)
                 if inner is None:
                     return None
                 base, g, gconds = inner
+                if enum and gconds(('x',), ('y',)):
+                    return None                 # positions would no longer line up
 
-                def f(e, t=t, d=d, g=g):
-                    return T.subst(t[2], {('cv', d, '0'): g(e)}) if d is not None else t[2]
+                def f(e, i, t=t, d=d, g=g, enum=enum):
+                    if d is None:
+                        return t[2]
+                    if enum:
+                        return _subst_cv(t[2], {('cv', d, '0.idx'): i, ('cv', d, '0.elem'): g(e, i)}, d)
+                    return _subst_cv(t[2], {('cv', d, '0'): g(e, i)}, d)
 
-                def fc(e, conds=conds, d=d, g=g, gconds=gconds):
-                    return list(gconds(e)) + [T.subst(c, {('cv', d, '0'): g(e)}) if d is not None else c for c in conds]
+                def fc(e, i, conds=conds, d=d, g=g, gconds=gconds):
+                    return list(gconds(e, i)) + [_subst_cv(c, {('cv', d, '0'): g(e, i)}, d) if d is not None else c for c in conds]
                 return base, f, fc
-            return t, (lambda e: e), (lambda e: [])
+            return t, (lambda e, i: e), (lambda e, i: [])
 
         def plain(t):
             return tag(t) != 'lc'
@@ -767,7 +784,7 @@ class _Run:
             if m is None:
                 return None
             base, f, fc = m
-            return base, 'enumerate', ('tuple', (idx, f(elem))), fc(elem)
+            return base, 'enumerate', ('tuple', (idx, f(elem, idx))), fc(elem, idx)
         if tag(it) == 'call' and it[1] == ('g', 'builtins.zip') and not it[3] and len(it[2]) >= 2:
             z = self._fuse_zip(it, as_map, elem)
             if z is None:
@@ -779,7 +796,8 @@ class _Run:
             if m is None:
                 return None
             base, f, fc = m
-            return base, 'for', f(elem), fc(elem)
+            uses_idx = T.contains(f(elem, idx), lambda x: x == idx)
+            return base, ('enumerate' if uses_idx else 'for'), f(elem, idx), fc(elem, idx)
         return None
 
     def _fuse_zip(self, z, as_map, elem):
@@ -789,10 +807,11 @@ class _Run:
         bases = {T.key(m[0]) for m in maps}
         if len(bases) != 1 or all(tag(a) != 'lc' for a in z[2]):
             return None                 # different iterables (or nothing to fuse): generic zip
+        idx = ('lv', elem[1], 'idx')
         conds = []
         for m in maps:
-            conds += m[2](elem)
-        return maps[0][0], ('tuple', tuple(m[1](elem) for m in maps)), conds
+            conds += m[2](elem, idx)
+        return maps[0][0], ('tuple', tuple(m[1](elem, idx) for m in maps)), conds
 
     def _bind_loop_target(self, tgt, it, lid, st, s) -> None:
         it = _zip_range_as_enumerate(it)
@@ -957,7 +976,8 @@ class _Run:
             f = f.parent
         q = self.p.resolve_static(self.func.module, e, self.func)
         if q is not None:
-            return ('g', q)
+            c = self._scalar_constant(q)
+            return c if c is not None else ('g', q)
         return ('unk', f'name:{nm}')
 
     def ev_Name(self, e, st):
@@ -990,7 +1010,8 @@ class _Run:
             if self._is_data_global(base[1]):
                 return T.mk_attr(base, name)      # attribute / method of a module-level data object
             q = self.p._canon(f'{base[1]}.{name}')
-            return ('g', q)
+            c = self._scalar_constant(q)
+            return c if c is not None else ('g', q)
         if name == '__class__' and tag(base) == 'p' and base[1] == 'self' and self.func.cls:
             return ('g', self.func.cls.qname)
         k = self.ex.typeof(base, self.func)
@@ -1011,6 +1032,31 @@ class _Run:
                     pass
                 return ('g', f'{ca[0].qname}.{name}')
         return T.mk_attr(base, name)
+
+    def _scalar_constant(self, q: str):
+        """A module-level name bound exactly once, to a number / string / bool literal, is that literal (writes to
+        module-level names from functions are findings of their own, C09-R6 / C13-R1)."""
+        modq, _, nm = q.rpartition('.')
+        mod = self.p.modules.get(modq)
+        if mod is None or nm in mod.functions or nm in mod.classes:
+            return None
+        nodes = mod.globals.get(nm, [])
+        if len(nodes) != 1:
+            return None
+        n = nodes[0]
+        if isinstance(n, ast.UnaryOp) and isinstance(n.op, ast.USub) and isinstance(n.operand, ast.Constant) \
+                and isinstance(n.operand.value, (int, float)):
+            return C(-n.operand.value)
+        if isinstance(n, ast.Constant) and isinstance(n.value, (int, float, str, bool)) and not nm.startswith('__'):
+            return C(n.value)
+        if isinstance(n, ast.Tuple):
+            # an immutable table of constants (tuple of literals / of literal records)
+            try:
+                ast.literal_eval(n)
+            except (ValueError, TypeError, SyntaxError, MemoryError, RecursionError):
+                return None
+            return self.ev(n, State({}))
+        return None
 
     def _is_data_global(self, q: str) -> bool:
         """Is q a module-level *variable* of the package holding data (dict / list / call result other
@@ -1195,6 +1241,7 @@ class _Run:
     # ------------------------------------------------------------------ calls
     def ev_Call(self, e, st):
         self.ex.n_calls += 1
+        self._cur_state = st
         fn = self.ev(e.func, st)
         args = []
         for a in e.args:
@@ -1336,7 +1383,34 @@ class _Run:
         self.emit('call', node, st, call=t)
         return t
 
+    def _function_as_lambda(self, t):
+        """A package function handed over as a value (series.apply(helper)) is the lambda with its body."""
+        if tag(t) != 'g' or t[1] not in self.p.funcs:
+            return t
+        f = self.p.funcs[t[1]]
+        a = f.node.args
+        if a.vararg or a.kwarg or a.kwonlyargs or a.defaults or f.cls is not None or len(a.args) > 3:
+            return t
+        if any(isinstance(n, (ast.Yield, ast.YieldFrom, ast.Nonlocal, ast.Global)) for n in ast.walk(f.node)):
+            return t
+        if f.parent is not None and f.parent is not self.func:
+            return t
+        binding = {x.arg: ('lamv', i) for i, x in enumerate(a.args)}
+        binding['__inlined__'] = True
+        if f.parent is self.func and self._cur_state is not None:
+            own = _bound_names(f.node.body) | set(binding)
+            free = {n.id for n in ast.walk(f.node) if isinstance(n, ast.Name) and isinstance(n.ctx, ast.Load)
+                    and n.id not in own and n.id in self._cur_state.env}
+            binding['__free__'] = tuple(sorted((nm, self._cur_state.env[nm]) for nm in free))
+        n_before = len(self.events)
+        summ = self.ex.run(f, binding, self.depth + 1)
+        if any(e.kind in ('store', 'aug', 'mutcall', 'del', 'raise') for e in summ.events):
+            return t                    # not a pure expression function
+        return ('lam', len(a.args), summ.ret)
+
     def _mcall(self, recv, name, args, kws):
+        if name in ('apply', 'map', 'transform', 'applymap') and args and tag(args[0]) == 'g':
+            args = (self._function_as_lambda(args[0]),) + tuple(args[1:])
         if name in METHOD_SIGS:
             args, kws = _positional(METHOD_SIGS[name], args, kws)
         if name in T.VALS_METHODS and not args:
@@ -1527,6 +1601,44 @@ def _record_fields(project, k):
                if isinstance(s, ast.AnnAssign) and isinstance(s.target, ast.Name)]
     _RECORD_CACHE[key] = out
     return out
+
+
+def _cvs_outside_lc(t, acc=None):
+    """Comprehension variables occurring in t outside any embedded comprehension term."""
+    acc = [] if acc is None else acc
+    if not isinstance(t, tuple) or not t:
+        return acc
+    tg = t[0] if isinstance(t[0], str) else None
+    if tg == 'cv':
+        acc.append(t)
+        return acc
+    if tg == 'lc':
+        return acc
+    for x in (t[1:] if tg is not None else t):
+        if isinstance(x, tuple):
+            _cvs_outside_lc(x, acc)
+    return acc
+
+
+def _own_depth(lc):
+    ds = [x[1] for x in _cvs_outside_lc(lc[2])] + [x[1] for _, cs in lc[3] for c in cs for x in _cvs_outside_lc(c)]
+    return min(ds, default=None)
+
+
+def _subst_cv(t, mapping, d):
+    """Substitute comprehension variables of depth d, leaving alone embedded comprehensions that bind variables of the
+    same depth themselves (siblings read back from a table, not nested ones)."""
+    if not isinstance(t, tuple) or not t:
+        return t
+    if t in mapping:
+        return mapping[t]
+    tg = t[0] if isinstance(t[0], str) else None
+    if tg == 'lc' and _own_depth(t) == d:
+        return t
+    if tg is None:
+        return tuple(_subst_cv(x, mapping, d) if isinstance(x, tuple) else x for x in t)
+    new = tuple([t[0]] + [_subst_cv(x, mapping, d) if isinstance(x, tuple) else x for x in t[1:]])
+    return T.rebuild(new) if new != t else t
 
 
 def _constant_items(it):
